@@ -50,16 +50,19 @@ var helpers = [][2]string{
 	{"lib", "{% macro m(a, b = 'd') %}[{{ a }}{{ b }}]{% endmacro %}{% macro n() %}N{% endmacro %}"},
 }
 
+var helperMap = func() map[string]string {
+	m := map[string]string{"canary": canarySrc}
+	for _, h := range helpers {
+		m[h[0]] = h[1]
+	}
+	return m
+}()
+
+// newEngine: a fresh engine whose helper templates and canary are served by an array loader (so they
+// are parsed only when a case asks for them).
 func newEngine() *twig.Engine {
 	e := twig.New()
-	for _, h := range helpers {
-		if err := e.RegisterString(h[0], h[1]); err != nil {
-			panic("harness: helper template does not parse: " + err.Error())
-		}
-	}
-	if err := e.RegisterString("canary", canarySrc); err != nil {
-		panic("harness: canary does not parse: " + err.Error())
-	}
+	e.RegisterLoader(twig.NewArrayLoader(helperMap))
 	return e
 }
 
@@ -121,13 +124,13 @@ func errClass(err error) string {
 
 // runSource: parse src as template "main" on a fresh engine, render it with every context, then the
 // canary. ctxs may be nil (parse only).
-func runSource(fam, src string, ctxs []map[string]interface{}, nontrivial bool, detail interface{}) *vlib.Outcome {
+func runSource(fam, src string, ctxs []map[string]interface{}, nontrivial bool, detail func() interface{}) *vlib.Outcome {
 	if slowLog != "" { // development aid only; never part of the verdict
 		t0 := time.Now()
 		defer func() {
 			if d := time.Since(t0); d > 100*time.Millisecond {
 				if f, err := os.OpenFile(slowLog, os.O_APPEND|os.O_CREATE|os.O_WRONLY, 0o644); err == nil {
-					fmt.Fprintf(f, "%v %s %s %v\n", d, fam, showSrc(src), detail)
+					fmt.Fprintf(f, "%v %s %s %v\n", d, fam, showSrc(src), det(detail))
 					f.Close()
 				}
 			}
@@ -138,7 +141,7 @@ func runSource(fam, src string, ctxs []map[string]interface{}, nontrivial bool, 
 	var perr error
 	if p := guard(func() { perr = e.RegisterString("main", src) }); p != "" {
 		o.Violation = fmt.Sprintf("parsing %s panicked: %s", showSrc(src), p)
-		o.Detail = detail
+		o.Detail = det(detail)
 		o.Class = fam + ":PANIC-parse"
 		return o
 	}
@@ -152,7 +155,7 @@ func runSource(fam, src string, ctxs []map[string]interface{}, nontrivial bool, 
 			var rerr error
 			if p := guard(func() { _, rerr = e.Render("main", ctx) }); p != "" {
 				o.Violation = fmt.Sprintf("rendering %s with context #%d panicked: %s", showSrc(src), i, p)
-				o.Detail = detail
+				o.Detail = det(detail)
 				o.Class = fam + ":PANIC-render"
 				return o
 			}
@@ -171,9 +174,40 @@ func runSource(fam, src string, ctxs []map[string]interface{}, nontrivial bool, 
 	o.Class = fam + ":" + cls
 	if v := checkCanary(e); v != "" {
 		o.Violation = fmt.Sprintf("after %s: %s", showSrc(src), v)
-		o.Detail = detail
+		o.Detail = det(detail)
 	}
 	return o
+}
+
+var violLog = os.Getenv("C05_VIOLLOG")
+
+// tcase = t.Case, plus (development aid) a log of every violating case
+func tcase(t *vlib.T, key string, fn func() *vlib.Outcome) {
+	if violLog == "" {
+		t.Case(key, fn)
+		return
+	}
+	t.Case(key, func() *vlib.Outcome {
+		o := fn()
+		if o != nil && o.Violation != "" {
+			if f, err := os.OpenFile(violLog, os.O_APPEND|os.O_CREATE|os.O_WRONLY, 0o644); err == nil {
+				v := strings.Split(o.Violation, "\n")
+				if len(v) > 3 {
+					v = v[:3]
+				}
+				fmt.Fprintf(f, "%q\t%s\n", key, strings.Join(v, " // "))
+				f.Close()
+			}
+		}
+		return o
+	})
+}
+
+func det(f func() interface{}) interface{} {
+	if f == nil {
+		return nil
+	}
+	return f()
 }
 
 func showSrc(s string) string {
